@@ -51,7 +51,7 @@ def closure(roots):
 
 RUNTIME_STMTS = [n for n, s, a in K.CATALOGUE if re.match(r"(print|cls|sound|poke|reset|set|input|line_input|width|locate|attr|cmp|rgb|palette|hscreen|hcls|harc|hellipse|hcircle|hprint|hcolor|hline|hreset|hset|play|hdraw|hbuff|hget|hput|hpaint|num_assign_fn2|num_assign_dev|str_assign_fn2|data_empty|read|num_assign_direct|str_assign_direct|on_err|on_brk|if_then_stmt|num_assign$)", n)]
 
-HOSTILE = ["PAGE\x0cBREAK", "A\x0bB", "A\x1cB\x1dC\x1eD", "A\x85B", "\x0c", "RUN ecb_play", "run ecb_sound(1,2)", "procedure zz", ": STRING<<>>", "X: STRING<<>>Y", "\\", "\\ RUN ecb_hdraw", "(* x", "*)"]
+HOSTILE = ["DON'T PANIC", "IT'S 5 O'CLOCK", "PAGE\x0cBREAK", "A\x0bB", "A\x1cB\x1dC\x1eD", "A\x85B", "\x0c", "RUN ecb_play", "run ecb_sound(1,2)", "procedure zz", ": STRING<<>>", "X: STRING<<>>Y", "\\", "\\ RUN ecb_hdraw", "(* x", "*)"]
 POSITIONS = [
     ("strlit", 'A$ = "{}"'),
     ("print", 'PRINT "{}" ; 1'),
